@@ -46,7 +46,7 @@ type bCase struct {
 }
 
 func genBridge(t *rapid.T, withDrop bool) bCase {
-	ops := []string{"send", "send", "send", "resend", "recv", "recv", "cancel", "cut", "halfcut", "pause", "reref", "hold", "unhold"}
+	ops := []string{"send", "send", "send", "resend", "recv", "recv", "pollrecv", "cancel", "cut", "halfcut", "pause", "reref", "hold", "unhold"}
 	if withDrop {
 		ops = append(ops, "drop")
 	}
@@ -69,6 +69,12 @@ func genBridge(t *rapid.T, withDrop bool) bCase {
 			c.Ops = append(c.Ops, bop{Op: "send", P: p}, bop{Op: "recv", P: 1 - p})
 		}
 		c.Ops = append(c.Ops, bop{Op: "reref", P: p}, bop{Op: "send", P: p}, bop{Op: "recv", P: 1 - p})
+	}
+	if rapid.IntRange(0, 4).Draw(t, "poll") == 0 {
+		// a receiver that polls: a message is waiting when its application asks with a context that is already over
+		p := rapid.IntRange(0, 1).Draw(t, "pollp")
+		c.AutoRecv = false
+		c.Ops = append(c.Ops, bop{Op: "send", P: p}, bop{Op: "pause", P: p}, bop{Op: "pollrecv", P: 1 - p}, bop{Op: "pause", P: p}, bop{Op: "recv", P: 1 - p})
 	}
 	n := rapid.IntRange(3, 14).Draw(t, "n")
 	for i := 0; i < n; i++ {
@@ -123,7 +129,7 @@ type brig struct {
 	mu      sync.Mutex
 	sends   []*sendRec
 	recvs   [2][]recvRec
-	recvReq [2]chan struct{}
+	recvReq [2]chan bool
 	auto    bool
 	nsend   int
 	// recvCtx / recvCancel: the context of p's current Recv calls (cancelled when p renews its reference)
@@ -176,7 +182,7 @@ func newBrig(auto bool, via ...bool) (*brig, error) {
 		g.ref[p] = cl.AddPeerRef(gen.PeerID(1 - p).String())
 		g.sess[p] = signaling_rpc_client.NewSessionWithRef(g.ref[p])
 		g.recvCtx[p], g.recvCancel[p] = context.WithCancel(ctx)
-		g.recvReq[p] = make(chan struct{}, 64)
+		g.recvReq[p] = make(chan bool, 64)
 		go g.appLoop(p)
 	}
 	return g, nil
@@ -185,15 +191,23 @@ func newBrig(auto bool, via ...bool) (*brig, error) {
 // appLoop is the application of identity p consuming messages (continuously, or once per request).
 func (g *brig) appLoop(p int) {
 	for {
+		expired := false
 		if !g.isAuto() {
 			select {
-			case <-g.recvReq[p]:
+			case expired = <-g.recvReq[p]:
 			case <-g.ctx.Done():
 				return
 			}
 		}
 		callAt := tick()
 		ref, rctx := g.curRef(p)
+		if expired {
+			// a poll: the application asks once with a context that is already over (it takes a message if the call
+			// hands it one, and goes on otherwise)
+			var pcancel context.CancelFunc
+			rctx, pcancel = context.WithCancel(rctx)
+			pcancel()
+		}
 		var m *signaling.SessionMsg
 		var payload string
 		var err error
@@ -231,7 +245,7 @@ func (g *brig) setAuto() {
 	for p := 0; p < 2; p++ {
 		// wake a loop waiting for an explicit request
 		select {
-		case g.recvReq[p] <- struct{}{}:
+		case g.recvReq[p] <- false:
 		default:
 		}
 	}
@@ -337,7 +351,13 @@ func (g *brig) run(ops []bop, classes map[string]bool) []string {
 			}
 		case "recv":
 			select {
-			case g.recvReq[op.P] <- struct{}{}:
+			case g.recvReq[op.P] <- false:
+			default:
+			}
+		case "pollrecv":
+			select {
+			case g.recvReq[op.P] <- true:
+				classes["receive-with-expired-context"] = true
 			default:
 			}
 		case "cancel":
